@@ -744,9 +744,19 @@ pub const PERFT_ANCHORS: [(&str, u32, u64); 6] = [
     ("r4rk1/1pp1qppp/p1np1n2/2b1p1B1/2B1P1b1/P1NP1N2/1PP1QPPP/R4RK1 w - - 0 10", 3, 89_890),
 ];
 
+/// The same positions one ply shallower (also published values), for the quick tiers.
+pub const PERFT_ANCHORS_SHALLOW: [(&str, u32, u64); 6] = [
+    ("rnbqkbnr/pppppppp/8/8/8/8/PPPPPPPP/RNBQKBNR w KQkq - 0 1", 3, 8_902),
+    ("r3k2r/p1ppqpb1/bn2pnp1/3PN3/1p2P3/2N2Q1p/PPPBBPPP/R3K2R w KQkq - 0 1", 3, 97_862),
+    ("8/2p5/3p4/KP5r/1R3p1k/8/4P1P1/8 w - - 0 1", 4, 43_238),
+    ("r3k2r/Pppp1ppp/1b3nbN/nP6/BBP1P3/q4N2/Pp1P2PP/R2Q1RK1 w kq - 0 1", 3, 9_467),
+    ("rnbq1k1r/pp1Pbppp/2p5/8/2B5/8/PPP1NnPP/RNBQK2R w KQ - 1 8", 3, 62_379),
+    ("r4rk1/1pp1qppp/p1np1n2/2b1p1B1/2B1P1b1/P1NP1N2/1PP1QPPP/R4RK1 w - - 0 10", 3, 89_890),
+];
+
 /// Recompute the anchors; `Err` means the oracle itself is broken.
-pub fn self_test() -> Result<(), String> {
-    for (fen, d, want) in PERFT_ANCHORS {
+pub fn self_test(deep: bool) -> Result<(), String> {
+    for (fen, d, want) in if deep { PERFT_ANCHORS } else { PERFT_ANCHORS_SHALLOW } {
         let p = Pos::from_fen(fen).ok_or_else(|| format!("reference reader rejects {fen}"))?;
         let got = p.perft(d);
         if got != want {
@@ -764,6 +774,6 @@ mod tests {
     use super::*;
     #[test]
     fn anchors() {
-        self_test().unwrap();
+        self_test(true).unwrap();
     }
 }
